@@ -23,6 +23,9 @@ R05.9 byte conservation of the update functions on the IR skeleton (lib/irskel.p
 R05.10 padding layout of the tail functions on the IR skeleton: 0x80 right behind the residue, zero fill, one block
       more exactly when the 8-byte length no longer fits, length stored into the last 8 bytes of the last block.
 R05.11 byte-order masks are constants in the block functions (as C01 R01.9).
+R05.12 the frame buffer is aligned upwards: every pointer into the caller's context that is aligned by masking has the
+      alignment minus one added first - rounding down would place the block functions' scratch area over the interim
+      digests that precede it in the context.
 R05.4 "hashed ... with standard SHA-1 / SHA-256" (padding half): every store of the message bit length into a
       padding buffer that the C source asks for (tail functions, the final single-buffer hash) survives in the
       object built with the real flags - some instruction attributed to that source line writes memory.
@@ -62,6 +65,8 @@ def run(chk):
     chk.floor("tail functions replayed for the padding layout", ntail, 8)
     nsm, nsh = mhrules.shuffle_mask_rule(chk, "R05.11", lib, r"^_?mh_sha(1|256)_block_\w+$")
     chk.floor("block functions checked for constant byte-shuffle masks", nsm, 8)
+    nal = mhrules.align_up_rule(chk, "R05.12", mods)
+    chk.floor("pointer alignments by masking judged", nal, 10)
     nbb = mhrules.block_bounds(chk, "R05.8", lib, mods, "_mh_sha1_block") + mhrules.block_bounds(chk, "R05.8", lib, mods, "_mh_sha256_block")
     chk.floor("block functions followed on the length skeleton", nbb, 8)
     ns = mhrules.length_store_survives(chk, "R05.4", lib, mods)
